@@ -15,7 +15,7 @@ E2 = True
 NSCHED = 72
 CODE = ["signac.project.Project.__init__ (workspace creation)", "signac._utility._mkdir_p", "signac.job.Job.init / _StatePointDict.save / load", "signac.job.Job.document (read / write)", "signac.project.Project._job_dirs / __len__ / __iter__ / _get_statepoint",
         "synced_collections JSON backend (temp file + os.replace)"]
-BOUNDS = {"actors": "2 (quick, thorough) and 3 (thorough, pre-emption bound 1)", "scripts": "init same job / init different jobs / write own job's document / read the other's document / len+iterate / the real Project() constructor on a project without a workspace directory; "
+BOUNDS = {"actors": "2 (quick, thorough) and 3 (thorough, pre-emption bound 1)", "scripts": "init(force=True) of the same job (pre-emption bound 3 in quick) / init same job / init different jobs / write own job's document / read the other's document / len+iterate / the real Project() constructor on a project without a workspace directory; "
           "from an empty and from a populated workspace", "schedules": "every interleaving at file-system-step granularity (queries are scheduling points too) up to the sleep-set reduction; "
           "quick: at most 2 pre-emptions; thorough: at most 4 pre-emptions for 2 actors", "schedule length": "72 decision points (paths needing more are reported as inconclusive, never as success)"}
 OUTSIDE = ["reading the state point of a job while another process is between creating its directory and writing its state point file (inherent window; raises JobsCorruptedError)", "more than 3 actors", "concurrent writers of the SAME document (not in the property)", "pre-emption inside a single file-system call", "schedules beyond the pre-emption bound"]
@@ -48,6 +48,8 @@ def _script(kind, idx, fs, log):
             n = len(pr)
             ids = sorted(j.id for j in pr)      # handles only: reading the state point of a job that another process is just creating is outside the property
             log.append(("listed", idx, n, ids))
+        elif kind == 6:    # init(force=True) of the same job ("to be safe" scripts, Project.repair)
+            pr.open_job(SP[0]).init(force=True)
         elif kind == 5:    # the REAL Project constructor (config parsing stubbed) on a project whose workspace may not exist yet, then init
             pr = P.Project("/p")
             pr.open_job(SP[idx % 2]).init()
@@ -110,7 +112,7 @@ def _case(k0, k1, k2, nact, populated, schedule, pb):
         if populated == 2:
             docs[refs.canon_id(SP[0])] = {"k": 100}
         for i, k in enumerate(kinds):
-            if k == 0:
+            if k in (0, 6):
                 want.add(refs.canon_id(SP[0]))
             elif k in (1, 2, 5):
                 want.add(refs.canon_id(SP[i % 2]))
@@ -160,13 +162,14 @@ def _case(k0, k1, k2, nact, populated, schedule, pb):
 
 def h_two(k0: int, k1: int, populated: int, s0: int, s1: int, s2: int, s3: int, s4: int, s5: int, s6: int, s7: int, s8: int, s9: int, s10: int, s11: int, s12: int, s13: int, s14: int, s15: int, s16: int, s17: int, s18: int, s19: int, s20: int, s21: int, s22: int, s23: int, s24: int, s25: int, s26: int, s27: int, s28: int, s29: int, s30: int, s31: int, s32: int, s33: int, s34: int, s35: int, s36: int, s37: int, s38: int, s39: int, s40: int, s41: int, s42: int, s43: int, s44: int, s45: int, s46: int, s47: int, s48: int, s49: int, s50: int, s51: int, s52: int, s53: int, s54: int, s55: int, s56: int, s57: int, s58: int, s59: int, s60: int, s61: int, s62: int, s63: int, s64: int, s65: int, s66: int, s67: int, s68: int, s69: int, s70: int, s71: int):
     """two actors, every interleaving (sleep sets), pre-emption bound from the tier"""
-    assert 0 <= k0 <= 5 and 0 <= k1 <= 5 and k0 <= k1 and 0 <= populated <= 2 and part_ok((k0 * 6 + k1) * 3 + populated)
+    assert 0 <= k0 <= 6 and 0 <= k1 <= 6 and k0 <= k1 and 0 <= populated <= 2 and part_ok((k0 * 6 + k1) * 3 + populated)
+    assert k1 != 6 or k0 in (0, 6)      # the forcing actor is paired with a plain init of the same job, or with itself
     assert 0 <= s0 <= 2 and 0 <= s1 <= 2 and 0 <= s2 <= 2 and 0 <= s3 <= 2 and 0 <= s4 <= 2 and 0 <= s5 <= 2 and 0 <= s6 <= 2 and 0 <= s7 <= 2 and 0 <= s8 <= 2 and 0 <= s9 <= 2 and 0 <= s10 <= 2 and 0 <= s11 <= 2 and 0 <= s12 <= 2 and 0 <= s13 <= 2 and 0 <= s14 <= 2 and 0 <= s15 <= 2 and 0 <= s16 <= 2 and 0 <= s17 <= 2 and 0 <= s18 <= 2 and 0 <= s19 <= 2 and 0 <= s20 <= 2 and 0 <= s21 <= 2 and 0 <= s22 <= 2 and 0 <= s23 <= 2 and 0 <= s24 <= 2 and 0 <= s25 <= 2 and 0 <= s26 <= 2 and 0 <= s27 <= 2 and 0 <= s28 <= 2 and 0 <= s29 <= 2 and 0 <= s30 <= 2 and 0 <= s31 <= 2 and 0 <= s32 <= 2 and 0 <= s33 <= 2 and 0 <= s34 <= 2 and 0 <= s35 <= 2 and 0 <= s36 <= 2 and 0 <= s37 <= 2 and 0 <= s38 <= 2 and 0 <= s39 <= 2 and 0 <= s40 <= 2 and 0 <= s41 <= 2 and 0 <= s42 <= 2 and 0 <= s43 <= 2 and 0 <= s44 <= 2 and 0 <= s45 <= 2 and 0 <= s46 <= 2 and 0 <= s47 <= 2 and 0 <= s48 <= 2 and 0 <= s49 <= 2 and 0 <= s50 <= 2 and 0 <= s51 <= 2 and 0 <= s52 <= 2 and 0 <= s53 <= 2 and 0 <= s54 <= 2 and 0 <= s55 <= 2 and 0 <= s56 <= 2 and 0 <= s57 <= 2 and 0 <= s58 <= 2 and 0 <= s59 <= 2 and 0 <= s60 <= 2 and 0 <= s61 <= 2 and 0 <= s62 <= 2 and 0 <= s63 <= 2 and 0 <= s64 <= 2 and 0 <= s65 <= 2 and 0 <= s66 <= 2 and 0 <= s67 <= 2 and 0 <= s68 <= 2 and 0 <= s69 <= 2 and 0 <= s70 <= 2 and 0 <= s71 <= 2
     fresh_path()
-    k0, k1, populated = ci(k0, 0, 5), ci(k1, 0, 5), ci(populated, 0, 2)
+    k0, k1, populated = ci(k0, 0, 6), ci(k1, 0, 6), ci(populated, 0, 2)
     schedule = [s0, s1, s2, s3, s4, s5, s6, s7, s8, s9, s10, s11, s12, s13, s14, s15, s16, s17, s18, s19, s20, s21, s22, s23, s24, s25, s26, s27, s28, s29, s30, s31, s32, s33, s34, s35, s36, s37, s38, s39, s40, s41, s42, s43, s44, s45, s46, s47, s48, s49, s50, s51, s52, s53, s54, s55, s56, s57, s58, s59, s60, s61, s62, s63, s64, s65, s66, s67, s68, s69, s70, s71]
     with nt():
-        r = _case(k0, k1, 0, 2, populated, schedule, 2 if tier() == "quick" else 4)
+        r = _case(k0, k1, 0, 2, populated, schedule, (3 if k1 == 6 else 2) if tier() == "quick" else 4)
     reached()
     assert r[0]
 
